@@ -40,3 +40,41 @@ Print Assumptions C09_errors_are_recorded_not_thrown.
 
 Example C09_example : disciplined [AppendErr; MkBad; AppendErr] /\ epilogue 2 true = Some 2 /\ epilogue 0 false = Some 1.
 Proof. split; [apply (DAppend [AppendErr; MkBad]); apply (DHandler []); constructor|split; reflexivity]. Qed.
+
+(* ---- the error contract of ParseType, whole: Parse/TypeRecover.v models the type grammar TOGETHER with handleParseTypeError as a total
+   function of the token list (tree with BadType nodes + the list of recorded errors); it is tied to ParseType in every run on ~32000
+   accepted and rejected inputs (whole trees, every error position).  [bads] counts the Bad nodes of the returned tree. ---- *)
+From Coq Require Import ZArith List.
+Import ListNotations.
+From Verif Require Import Base.Bytes Parse.ExprModel Parse.TypeModel Parse.TypeProofs Parse.TypeRecover Parse.TypeRecoverProofs.
+
+(* whatever ParseType returns: at least one error per Bad node; and a nil error exactly when the whole input is one type of the grammar --
+   then the tree has no Bad node and is the tree of the success-path model *)
+Theorem C09_type_parser_contract : forall ts t errs, parse_typeR ts = Some (t, errs) ->
+  (TypeRecover.bads t <= length errs)%nat /\ (errs = [] <-> exists t0 r, parse_type ts = Ok (t0, r) /\ t = embed t0).
+Proof. exact parse_typeR_contract. Qed.
+Print Assumptions C09_type_parser_contract.
+
+(* it always returns: a tree and an error list for every token list that ends with <eof> (never a panic, never out of fuel) *)
+Theorem C09_type_parser_always_answers : forall ts, last_eof ts -> exists t errs, parse_typeR ts = Some (t, errs).
+Proof. exact parse_typeR_total. Qed.
+Print Assumptions C09_type_parser_always_answers.
+
+(* errors are only ever appended: every activation of parseType leaves the errors recorded before it in place *)
+Theorem C09_type_errors_only_accumulate : forall f ts e, ext e (PTR f ts e).
+Proof. exact PTR_grows. Qed.
+Print Assumptions C09_type_errors_only_accumulate.
+
+(* up to the first error the recovering parser and the success-path parser run in lockstep: same tree, or the first recorded error is the
+   error of the success-path model *)
+Theorem C09_type_first_error : forall f ts e, rel embed (PT f ts) (PTR f ts e) e.
+Proof. exact PTR_simulates_PT. Qed.
+Print Assumptions C09_type_first_error.
+
+(* non-vacuity: ARRAY<1> -- one error, one Bad node holding the token 1, inside a well-formed ArrayType *)
+Example C09_type_example :
+  let tkz (k : String.string) (p : Z) (n : Z) := {| pk := bs k; praw := bs k; pstr := []; ppos := p; pend := (p + n)%Z; pbase := 0 |} in
+  let one := {| pk := bs K_int; praw := bs "1"; pstr := []; ppos := 6%Z; pend := 7%Z; pbase := 10%Z |} in
+  parse_typeR [tkz "ARRAY"%string 0 5; tkz "<"%string 5 1; one; tkz ">"%string 7 1; tkz K_eof 8 0]%Z
+  = Some (RArray 0 7 (RBad 6 7 [one]), [6%Z]).
+Proof. vm_compute. reflexivity. Qed.
